@@ -118,6 +118,7 @@ func runOne(tr *drv.Tracer, sid int, sc drv.Step) bool {
 		nbcast   = map[int64]int{}
 		anomaly  bool
 		silentTo = map[int64]bool{}
+		maxRound int64
 	)
 	for p, cs := range crashes {
 		if cs.after == 0 {
@@ -136,6 +137,9 @@ func runOne(tr *drv.Tracer, sid int, sc drv.Step) bool {
 		tr.Emit(qbftdrv.EffJSON(ev, eff))
 		if eff.NDec > 0 {
 			decided[p] = true
+		}
+		if eff.Round > maxRound {
+			maxRound = eff.Round
 		}
 		for _, b := range eff.Bcasts {
 			nbcast[p]++
@@ -222,6 +226,9 @@ func runOne(tr *drv.Tracer, sid int, sc drv.Step) bool {
 		}
 		if allDone() {
 			break
+		}
+		if maxRound > int64(3*n+4) {
+			break // hopeless: far beyond any rotation bound; End makes the trace spec flag BoundedDecision
 		}
 	}
 	tr.Emit(drv.Step{"ev": "End", "now": now})
